@@ -54,7 +54,7 @@ func init() {
 			"idx%10==5 = class ctx/*: the message context ends (handler cancels it in attempt k=1 with 1 h intervals; in attempt k=2,3 with a tiny InitialInterval and a huge Multiplier so that only the wait after attempt k is >= 40 s; " +
 			"the harness cancels it from outside during the 1 h wait; it is cancelled before the call; it carries a 1-5 ms deadline). idx%10==6 = class elapsed: MaxElapsedTime 5..20 ms, MaxRetries 2000, interval 1..2 ms, handler taking >=100 us and failing forever. " +
 			"idx%10==7 = class concurrent: ONE wrapped handler retries a permanently failing message (MaxRetries 3..4, Initial 8..12 ms, Multiplier 2, RF 0) while another goroutine keeps passing fresh, immediately succeeding messages through the same wrapped handler every few ms: the failing message's hook delays and back-off gaps must still follow its own progression. " +
-			"idx%10==8 = class elapsed-inside-wait: Initial 40..80 ms, Multiplier 6, RF 0, MaxElapsedTime = 1.5 x Initial, so the budget ends inside the second wait with a margin of 5.5 x Initial (>= 220 ms): a third attempt must not happen (reported only if Retry gave up in none of the runs of the scenario and a third attempt was seen in 4 runs that the harness's stall probe - its own 4 x Initial timer started in attempt 1 - found undisturbed, i.e. fired at most Initial late; at most 8 runs, otherwise inconclusive: a stalled process cannot fake it). " +
+			"idx%10==8 = class elapsed-inside-wait: Initial 40..80 ms, Multiplier 6, RF 0, MaxElapsedTime = 1.5 x Initial, so the budget ends inside the second wait with a margin of 5.5 x Initial (>= 220 ms): a third attempt must not happen (reported only if Retry gave up in none of the runs of the scenario and a third attempt was seen conclusively in 4 of at most 8 runs, otherwise inconclusive; conclusive = retry 2 started >= 6 x Initial after the end of attempt 2, no Stop (-1) was reported to OnRetryHook(2), and the harness's stall probe - its own 3 x Initial timer started in attempt 2 - fired at most Initial late: neither a slow nor a stalled process can fake it). " +
 			"idx%10==9 = class ctx-zero-wait: InitialInterval 0 (every wait is zero), MaxRetries 8, the handler cancels the message context in its first attempt; 40 such messages per case: with a zero wait both select branches may be ready, so single outcomes are not judged, but a Retry that honours the context gives up in most of them - reported when >= 30 of 40 messages used all 9 calls. " +
 			"The next 120 (quick) / 1500 (thorough) cases, j = idx-600 / idx-60000: " +
 			"j%3==0 = class long-lived/*: MaxElapsedTime E = 120..250 ms, MaxRetries 2..4, Initial 2..6 ms, Multiplier 1/1.5/2, MaxInterval 3 x Initial, RF 0 or <= 0.3 (all waits of one message sum to <= 70 ms, far below E), OnRetryHook set in half of the cases; " +
@@ -74,7 +74,7 @@ func init() {
 			"m%4==0 = msgctx/elapsed/<kind>: the configuration of class elapsed (MaxRetries 2000, interval 1..2 ms, handler >= 100 us, failing forever) with kind far (message deadline in 1..3 h, MaxElapsedTime E = 5..20 ms), later (deadline E + 1..5 min), " +
 			"none (no deadline, E = 5..20 ms), sooner (deadline D = 5..20 ms, E = D + 10..30 s), sooner-1h (E = 1 h), sooner-near (E = D + 1..5 ms): Retry must give up with fewer than 2001 calls whatever deadline the message has (2000 waits of >= 1 ms cannot fit into E resp. D). " +
 			"m%4==1 = msgctx/inside-wait/<kind>: the configuration of class elapsed-inside-wait (Initial 40..80 ms, Multiplier 6, the third attempt cannot start before 7 x Initial) with kind far / later / none (E = 1.5 x Initial, message deadline 1..3 h / E + 1..5 min / none) " +
-			"and kind sooner (message deadline D = 1.5 x Initial, E = 1 h / D + 10..30 s / 3 x Initial); attempts 1 and 2 fail, a third one would succeed (so a Retry that ignores the limit returns there): a third attempt must not happen (reported as in class elapsed-inside-wait: no run in which Retry gave up and 4 undisturbed runs with a third attempt, each run with a fresh context). " +
+			"and kind sooner (message deadline D = 1.5 x Initial, E = 1 h / D + 10..30 s / 3 x Initial); attempts 1 and 2 fail, a third one would succeed (so a Retry that ignores the limit returns there): a third attempt must not happen (reported as in class elapsed-inside-wait: no run in which Retry gave up and 4 runs with a conclusive third attempt, each run with a fresh context). " +
 			"m%4==2 = msgctx/deadline-in-wait/<kind>: Initial = MaxInterval = 1 h, message deadline D = 1..5 ms, kind E=0 / E=1h / E=D+10..30s / E=2..4xD: once the harness sees its own context ended after attempt 1, Retry has to return after exactly that one call (quiescence detector, as in ctx/deadline). " +
 			"m%4==3 = msgctx/schedule/<kind>: a schedule-class config and scripts with MaxElapsedTime 0 / 1 h / 5..30 s and kind far (deadline 2..3 h), between (E = 1 h, deadline 20..40 min), later-sec (E = 5..30 s, deadline E + 1..5 min), none: the deadline is far beyond the case, so every invocation must get its full number of attempts " +
 			"and the ordinary hook / delay / gap clauses apply (inconclusive if the harness finds its own context ended). " +
@@ -91,10 +91,11 @@ func init() {
 			"a returned error is accepted when it is the last attempt's error value or wraps it (errors.Is)",
 			"'MaxElapsedTime passes' is per message: the budget of a message starts no earlier than the end of its first (failed) attempt, whatever the age of the middleware instance; the harness measures from the end of attempt 1 (taken inside the handler, so not later than Retry's own start) to the start of the retry / to the return (taken outside, so not earlier than Retry's own reading): 'budget not used up' by this measurement implies the same for Retry's own clock, the converse is tolerated",
 			"'the message context ends' refers to the context the caller put on the message: a Retry that ends the message's context itself (observed as msg.Context().Err() != nil after the call while the harness's context is alive) makes its own give-up condition true for every later Retry that sees the message; that is counted (msg_context_ended_by_retry), and the consequences (a later delivery / an outer Retry giving up although nobody ended the context) are judged by the ordinary calls clause",
-			"classes elapsed-inside-wait and msgctx/inside-wait: a process stalled from before the limit (1.5 x Initial) until after the end of the second wait (7 x Initial) finds both select branches of Retry ready, and Go picks one at random; such a run is recognised by the harness's own timer set to the middle of that window (4 x Initial, started in attempt 1) firing >= 3 x Initial late (threshold used: > Initial) and is not counted as a sighting (elapsed_inside_wait_third_attempt_in_stalled_run)",
+			"classes elapsed-inside-wait and msgctx/inside-wait: correct code can make a third attempt in two ways. (1) A slow process: when the second wait is computed later than MaxElapsedTime (1.5 x Initial, i.e. only 0.5 x Initial after the earliest possible moment) on the back-off policy's own clock, NextBackOff returns backoff.Stop (-1), the wait ends at once and both select branches are ready (Go picks at random); " +
+				"recognised by retry 2 starting less than 6 x Initial after the end of attempt 2 or by OnRetryHook(2) reporting less than 6 x Initial (counter elapsed_inside_wait_third_attempt_without_full_wait). (2) A process stalled from the limit until after the end of the full second wait; recognised by the harness's own timer set to the middle of that wait (3 x Initial, started in attempt 2) firing about 3 x Initial late (threshold used: > Initial; counter elapsed_inside_wait_third_attempt_in_stalled_run). Neither is counted as a sighting",
 			"class nested: a failed inner chain counts as one failed attempt of the outer level; the product rule for the number of handler runs follows from judging both levels",
 			"class msgctx/*: 'gives up early when the message context ends or MaxElapsedTime passes' holds for every message context, whatever deadline it carries itself: the earlier of the two ends the retries. Only call counts are judged (no upper bound on any duration): " +
-				"msgctx/elapsed reports only the use of all 2001 calls (impossible while either limit is honoured, since 2000 waits of >= 1 ms are needed), msgctx/inside-wait only a third attempt in 4 of 4 undisturbed runs, msgctx/deadline-in-wait only a second call or a Retry that is quiescent in its 1 h wait after the harness saw the deadline pass",
+				"msgctx/elapsed reports only the use of all 2001 calls (impossible while either limit is honoured, since 2000 waits of >= 1 ms are needed), msgctx/inside-wait only a conclusive third attempt in 4 runs (and no run in which Retry gave up), msgctx/deadline-in-wait only a second call or a Retry that is quiescent in its 1 h wait after the harness saw the deadline pass",
 			"class msgctx/*: whether a value of the message context is visible through msg.Context() inside an attempt is counted (msgctx_value_seen / msgctx_value_missing), not judged",
 		},
 		Run: run,
@@ -965,14 +966,14 @@ func runConcurrent(e *vlib.Env) vlib.Result {
 	return res
 }
 
-// insideWaitMaxReps bounds the repetitions of an inside-wait scenario: a violation needs a third attempt in 4 runs that the
-// stall probe found undisturbed, and no run at all in which Retry gave up.
+// insideWaitMaxReps bounds the repetitions of an inside-wait scenario: a violation needs 4 runs with a conclusive third attempt
+// (see thirdAttempt) and no run at all in which Retry gave up.
 const insideWaitMaxReps = 8
 
-// stallProbe is the harness's own timer, started inside attempt 1 of an inside-wait scenario and set to 4 x Initial, the middle
-// of the window (1.5 x Initial .. 7 x Initial after attempt 1) in which Retry has to notice that its limit has passed. A process
-// that was stalled over that whole window (then both select branches of Retry are ready and Go picks one at random) wakes the
-// probe at least 3 x Initial late; such a run does not count as a sighting of a third attempt.
+// stallProbe is the harness's own timer, started inside attempt 2 of an inside-wait scenario and set to 3 x Initial, the middle
+// of the second wait (6 x Initial) inside which Retry has to notice that its limit has passed. A process that was stalled from
+// before the limit until after the end of that wait (then both select branches of Retry are ready and Go picks one at random)
+// wakes the probe about 3 x Initial late; such a run does not count as a sighting of a third attempt.
 type stallProbe struct {
 	d       time.Duration
 	started atomic.Bool
@@ -999,8 +1000,8 @@ func (p *stallProbe) start() {
 	}()
 }
 
-// finish is called after Retry returned. wait (a third attempt was made, so the probe's timer is due: it was started before the
-// end of attempt 1 and attempt 3 starts at least 7 x Initial later): the lateness of the probe is awaited and returned.
+// finish is called after Retry returned. wait (a third attempt was started at least 6 x Initial after the end of attempt 2, so
+// the probe's timer, started before the end of attempt 2, is due): the lateness of the probe is awaited and returned.
 // Otherwise the probe is stopped and its reading is not used.
 func (p *stallProbe) finish(wait bool) time.Duration {
 	if !p.started.Load() {
@@ -1014,6 +1015,37 @@ func (p *stallProbe) finish(wait bool) time.Duration {
 	return 0
 }
 
+// thirdAttempt judges a run of an inside-wait scenario in which a third attempt was made. Correct code has two ways to get there:
+// (1) the process was so slow that the back-off policy's own clock was beyond MaxElapsedTime already when the second wait was
+// computed: NextBackOff returns backoff.Stop (-1), the "wait" ends at once, both select branches are ready and Go picks at random.
+// Seen from outside: retry 2 starts less than 6 x Initial after the end of attempt 2 and/or OnRetryHook(2) reports -1.
+// (2) the full wait of 6 x Initial was made and the process was stalled from the limit to the end of the wait: seen by the probe.
+// Only a third attempt that started >= 6 x Initial after the end of attempt 2 (the harness's own measurement, a lower bound of
+// Retry's wait), without a reported Stop, in a run that the probe found undisturbed, is a conclusive sighting.
+func (iv *invocation) thirdAttempt(res *vlib.Result, ini time.Duration, probe *stallProbe) (conclusive bool) {
+	iv.mu.Lock()
+	full := len(iv.attempts) >= 3 && iv.attempts[2].start.Sub(iv.attempts[1].end) >= 6*ini
+	for _, h := range iv.hooks {
+		if h.N == 2 && h.Delay < 6*ini {
+			full = false
+		}
+	}
+	iv.mu.Unlock()
+	late := probe.finish(full)
+	res.Count("elapsed_inside_wait_third_attempt_seen", 1)
+	switch {
+	case !full:
+		res.Count("elapsed_inside_wait_third_attempt_without_full_wait", 1)
+		return false
+	case late > ini:
+		res.Count("elapsed_inside_wait_third_attempt_in_stalled_run", 1)
+		return false
+	}
+	return true
+}
+
+const insideWaitInconclusive = "%s: a third attempt was made in all %d runs, but only %d of them were conclusive (in the others the second wait was not the full 6 x Initial - the back-off policy found MaxElapsedTime used up already - or the harness's own 3 x Initial timer, started in attempt 2, fired more than Initial late: stalled process)"
+
 // runElapsedInsideWait: MaxElapsedTime ends inside a back-off wait, far away from both of its ends.
 func runElapsedInsideWait(e *vlib.Env) vlib.Result {
 	res := vlib.Result{Class: "elapsed-inside-wait"}
@@ -1021,21 +1053,23 @@ func runElapsedInsideWait(e *vlib.Env) vlib.Result {
 	c := cfg{MaxRetries: 6, Initial: ini, Max: time.Hour, Mult: 6, RF: 0, MaxElapsed: ini + ini/2, Logger: e.R.Bool()}
 	// attempts: #1 at 0, #2 after a wait of Initial (< MaxElapsedTime), #3 only after a further wait of 6 x Initial, i.e. not
 	// before 7 x Initial = MaxElapsedTime + 5.5 x Initial (>= 220 ms later): Retry has to give up inside that wait.
-	// A process stalled for that long could let both select branches become ready (then Go picks at random), so a third
-	// attempt is reported only when it shows up in every one of 4 consecutive runs of the scenario.
+	// A slow or stalled process can legitimately get to a third attempt (see thirdAttempt), so it is reported only when Retry
+	// gave up in no run of the scenario and 4 runs showed a conclusive third attempt.
 	var tr trace
 	sightings := 0
 	for rep := 0; rep < insideWaitMaxReps; rep++ {
 		iv := &invocation{name: fmt.Sprintf("%s-eiw%d", e.ID(), rep), forever: true}
 		h := c.retry(iv.hook).Middleware(iv.handler)
-		probe := newStallProbe(4 * ini)
+		probe := newStallProbe(3 * ini)
 		iv.onAttemt = func(n int) {
-			if n == 1 {
+			if n == 2 {
 				probe.start()
 			}
 		}
 		oc, dump := iv.exec(h, message.NewMessage(iv.name, nil), nil)
-		late := probe.finish(oc == vlib.Done && iv.calls() >= 3)
+		if oc != vlib.Done || iv.calls() < 3 {
+			probe.finish(false)
+		}
 		tr = iv.trace()
 		res.Sample = map[string]any{"cfg": c, "invocation": tr, "repetition": rep}
 		res.Sig = vlib.Sig("elapsed-inside-wait", c.Initial, tr.Calls)
@@ -1056,9 +1090,7 @@ func runElapsedInsideWait(e *vlib.Env) vlib.Result {
 			res.NonTrivial = tr.Calls == 2
 			return res
 		}
-		res.Count("elapsed_inside_wait_third_attempt_seen", 1)
-		if late > ini {
-			res.Count("elapsed_inside_wait_third_attempt_in_stalled_run", 1)
+		if !iv.thirdAttempt(&res, ini, probe) {
 			continue
 		}
 		if sightings++; sightings == 4 {
@@ -1066,7 +1098,7 @@ func runElapsedInsideWait(e *vlib.Env) vlib.Result {
 		}
 	}
 	if sightings < 4 {
-		res.Inconclusive("elapsed-inside-wait: a third attempt was made in all %d runs, but only %d of them were free of a stall (the harness's own 4 x Initial timer, started in attempt 1, fired more than Initial late in the others)", insideWaitMaxReps, sightings)
+		res.Inconclusive(insideWaitInconclusive, "elapsed-inside-wait", insideWaitMaxReps, sightings)
 		return res
 	}
 	res.Fail("elapsed-giveup", "[elapsed-inside-wait Initial=%v Mult=6 MaxElapsedTime=%v] in 4 of 4 runs Retry made %d handler calls: attempt 3 cannot start before 7 x Initial = %v, long after MaxElapsedTime passed, so Retry did not give up when the budget ended inside the wait", c.Initial, c.MaxElapsed, tr.Calls, 7*c.Initial)
@@ -1682,15 +1714,17 @@ func runMsgCtxInsideWait(e *vlib.Env, vi int) vlib.Result {
 		mc := mkMsgCtx(flavour, d, iv.name)
 		desc = mc.desc
 		msg.SetContext(mc.ctx)
-		probe := newStallProbe(4 * ini)
+		probe := newStallProbe(3 * ini)
 		iv.onAttemt = func(n int) {
 			mc.look(msg)
-			if n == 1 {
+			if n == 2 {
 				probe.start()
 			}
 		}
 		oc, dump := iv.exec(h, msg, nil)
-		late := probe.finish(oc == vlib.Done && iv.calls() >= 3)
+		if oc != vlib.Done || iv.calls() < 3 {
+			probe.finish(false)
+		}
 		mc.release()
 		mc.count(&res)
 		tr = iv.trace()
@@ -1728,9 +1762,7 @@ func runMsgCtxInsideWait(e *vlib.Env, vi int) vlib.Result {
 			res.NonTrivial = tr.Calls == 2
 			return res
 		}
-		res.Count("elapsed_inside_wait_third_attempt_seen", 1)
-		if late > ini {
-			res.Count("elapsed_inside_wait_third_attempt_in_stalled_run", 1)
+		if !iv.thirdAttempt(&res, ini, probe) {
 			continue
 		}
 		if sightings++; sightings == 4 {
@@ -1738,7 +1770,7 @@ func runMsgCtxInsideWait(e *vlib.Env, vi int) vlib.Result {
 		}
 	}
 	if sightings < 4 {
-		res.Inconclusive("%s: a third attempt was made in all %d runs, but only %d of them were free of a stall (the harness's own 4 x Initial timer, started in attempt 1, fired more than Initial late in the others)", res.Class, insideWaitMaxReps, sightings)
+		res.Inconclusive(insideWaitInconclusive, res.Class, insideWaitMaxReps, sightings)
 		return res
 	}
 	if sooner {
